@@ -154,10 +154,14 @@ type scenario struct {
 	CP     string `json:"collisionProtection"`
 	Users  int    `json:"userEvents"`
 	Edits  int    `json:"edits"`
+	// Restarts / Conflicts: budgets of operator crashes before a request and of foreign writes
+	// landing just before a write of a pass
+	Restarts  int `json:"restarts"`
+	Conflicts int `json:"conflicts"`
 }
 
 func (sc scenario) name() string {
-	return fmt.Sprintf("%s delegated=%03b cp=%s users=%d edits=%d", sc.Kind, sc.Mask, sc.CP, sc.Users, sc.Edits)
+	return fmt.Sprintf("%s delegated=%03b cp=%s users=%d edits=%d restarts=%d conflicts=%d", sc.Kind, sc.Mask, sc.CP, sc.Users, sc.Edits, sc.Restarts, sc.Conflicts)
 }
 
 var chainObjs = [][]string{{"a", "b"}, {"a", "b", "c"}, {"a", "c", "d"}}
@@ -198,11 +202,15 @@ func system(sc scenario) *world.System {
 				}
 			}
 			w.Budget["user"] = sc.Users
+			w.Budget["restart"] = sc.Restarts
+			w.Budget["conflict"] = sc.Conflicts
 			return w
 		},
 		Events: func(w *world.World) []world.Event {
 			evs := osw.ReconcileEvents(w)
 			evs = append(evs, osw.GCEvent(w)...)
+			evs = append(evs, osw.CrashEvents(w)...)
+			evs = append(evs, osw.ConflictEventsAll(w)...)
 			if sc.Kind == "deployment" {
 				if e := w.Budget["edit"]; e > 0 {
 					tmpls := [][]string{{"a", "c"}, {"a", "b"}}
@@ -254,6 +262,8 @@ func scenarios(quick bool) []scenario {
 		{Kind: "chain3", Users: 1},
 		{Kind: "chain2", CP: "None", Users: 1},
 		{Kind: "deployment", Edits: 2},
+		{Kind: "chain2", Restarts: 1, Conflicts: 1},
+		{Kind: "chain2", Mask: 0b10, Restarts: 1},
 	}
 	if !quick {
 		out = append(out,
@@ -263,6 +273,9 @@ func scenarios(quick bool) []scenario {
 			scenario{Kind: "chain2", Mask: 0b11, Users: 2},
 			scenario{Kind: "chain3", CP: "IfNoController", Users: 1},
 			scenario{Kind: "deployment", Edits: 3},
+			scenario{Kind: "chain3", Users: 1, Restarts: 1, Conflicts: 1},
+			scenario{Kind: "chain2", Mask: 0b11, Restarts: 2, Conflicts: 1},
+			scenario{Kind: "deployment", Edits: 2, Restarts: 1, Conflicts: 1},
 		)
 	}
 	return out
@@ -270,7 +283,7 @@ func scenarios(quick bool) []scenario {
 
 func run(o checks.Opts) *report.Report {
 	rep := report.New("C02", "bfs")
-	rep.Rule = "explicit-state BFS to closure: chains r1{a,b} <- r2{a,b,c} <- r3{a,c,d} of hand-made ObjectSets with previous lists (local or delegated phase per revision, collisionProtection Prevent/IfNoController/None) and an ObjectDeployment rolling T1{a,b} -> T2{a,c} -> T1; events = reconcile of every ObjectSet / ObjectSetPhase / ObjectDeployment in any order, user pausing / archiving / deleting any revision mid-handover, garbage collector; monitor on every effective write to a managed object + state invariant"
+	rep.Rule = "explicit-state BFS to closure: chains r1{a,b} <- r2{a,b,c} <- r3{a,c,d} of hand-made ObjectSets with previous lists (local or delegated phase per revision, collisionProtection Prevent/IfNoController/None) and an ObjectDeployment rolling T1{a,b} -> T2{a,c} -> T1; events = reconcile of every ObjectSet / ObjectSetPhase / ObjectDeployment in any order, user pausing / archiving / deleting any revision mid-handover, garbage collector, (budgeted) operator crash before request i of a pass and a foreign write landing before write i of a pass; monitor on every effective write to a managed object + state invariant"
 	scs := scenarios(o.Quick())
 	rep.Bounds["systems"] = len(scs)
 	for i, sc := range scs {
@@ -442,9 +455,9 @@ func init() {
 		Subs: []*checks.Sub{
 			{Name: "bfs", Shards: func(t string) int {
 				if t == "thorough" {
-					return 12
+					return 15
 				}
-				return 6
+				return 8
 			}, Run: run, Replay: replay, Parallel: true},
 			{Name: "interleavings", Shards: func(string) int { return 6 }, Run: runIL, Replay: replayIL},
 		},
